@@ -233,7 +233,7 @@ pub mod harness {
             }
         }
     }
-    pub fn peer_id_from_first_certificate(ch: &mut Chooser) { // @EOBL [C01] @BOUNDED for every certificate chain of 1..3 certificates (keys drawn from 3 values, each well-formed or not): the identity attributed to the connection is the public key of the FIRST certificate (the end-entity whose key signed the handshake); if that one is malformed the connection is refused; never a panic
+    pub fn peer_id_from_first_certificate(ch: &mut Chooser) { // @EOBL [C01,C03] @BOUNDED for every certificate chain of 1..3 certificates (keys drawn from 3 values, each well-formed or not): the identity attributed to the connection is the public key of the FIRST certificate (the end-entity whose key signed the handshake); if that one is malformed the connection is refused; never a panic
         let n = 1 + ch.below(3) as usize;
         let mut chain = Vec::new();
         let mut i = 0;
